@@ -1230,6 +1230,12 @@ func (ev *evaluator) evalCall(x *ECall) SV {
 			}
 			return SV{pv.V, et}
 		}
+		if pv, ok := a.V.(*PtrVal); ok && pv.Kind == PCell {
+			// pointer to a local variable of the caller: its current content
+			if v, ok := ev.curState().cells[pv.Cell]; ok {
+				return SV{v, pv.Typ}
+			}
+		}
 		ev.fail("deref of unsupported pointer")
 	}
 	if pf, ok := ev.fc.eng.pures[id.Name]; ok {
